@@ -247,6 +247,17 @@ func mkAdd(a, b *Term) *Term {
 			return mkAdd(a.args[0], mkInt(b.k-a.args[1].k))
 		}
 	}
+	// (x div c)*c + (x mod c)  ==  x
+	for k := 0; k < 2; k++ {
+		m, r := a, b
+		if k == 1 {
+			m, r = b, a
+		}
+		if m.op == OpMul && r.op == OpMod && m.args[1].isConst() && r.args[1] == m.args[1] &&
+			m.args[0].op == OpDiv && m.args[0].args[0] == r.args[0] && m.args[0].args[1] == m.args[1] {
+			return r.args[0]
+		}
+	}
 	return intern(&Term{op: OpAdd, sort: SInt, args: []*Term{a, b}, lo: satAdd(a.lo, b.lo), hi: satAdd(a.hi, b.hi)})
 }
 
